@@ -146,6 +146,10 @@ DiagOp(ev) ==
   ELSE IF ~OperandsMatch(ev) THEN <<"operands-do-not-match-registers">>
   ELSE IF ev.op = "poly" THEN <<"expected", PolyEv(ev, F)>>
   ELSE IF ev.op = "q_dot" THEN <<"expected", DotEv(ev, F)>>
+  ELSE IF IsElem(ev) /\ ev.t = "p32" /\ ev.op = "powf" THEN
+         <<"enclosure-outside-allowed-cells", Bound(ev.op), "excess", Excess15(ev, F[1], F[2], x), "composition-exp-ln",
+           IF ~IsNaR(F[1], x[1]) /\ ~IsNaR(F[1], x[2]) /\ ~Sign(F[1], x[1]) /\ x[1] # <<>> /\ PowfComposedOk(F[1], F[2], x[1], x[2], ev.r, 64)
+           THEN "consistent" ELSE "inconsistent">>
   ELSE IF IsElem(ev) THEN (IF ev.t = "p32" THEN <<"enclosure-outside-allowed-cells", Bound(ev.op), "excess", Excess15(ev, F[1], F[2], x)>>
                            ELSE <<"enclosure-outside-allowed-cells", 0>>)
   ELSE IF ev.op \in FnOps THEN <<"expected", Fn(ev.op, ev.sp, F[1], F[2], x)>>
